@@ -62,9 +62,13 @@ struct Tape {
     return i - 1;
   }
 
-  /// Real in [lo, hi] with 2^-16 resolution; word 0 gives lo.
+  /// Real in [lo, hi] with 2^-16 resolution; word 0 gives lo.  One word in eight (upper bits
+  /// all set) snaps to an end of the interval: boundary values are where range checks and
+  /// rounding go wrong.
   double real(double lo, double hi) {
-    uint32_t v = next() & 0xFFFFu;
+    uint32_t x = next();
+    uint32_t v = x & 0xFFFFu;
+    if (((x >> 16) & 7u) == 7u) return (v & 1u) ? hi : lo;
     return lo + (hi - lo) * (double)v / 65535.0;
   }
 
